@@ -185,6 +185,7 @@ func runC16B(c *explore.Ctx, arg string) {
 		return
 	}
 	d := &explore.ScheduleDFS{
+		Settle:   settle,
 		Scenario: a.Name(),
 		New:      func() (explore.World, error) { return NewEmitterWorld(a.K, a.Reads, a.Global) },
 		Bound:    a.Bound, Horizon: 400, Stats: c.Stats, Journal: c.JournalHist, Expired: c.Expired,
